@@ -613,6 +613,11 @@ def rule_copermute(ctx) -> RuleResult:
             continue
         la, va = lab[0].args[1], val[0].args[1]
         ok = norm(la) == norm(va)
+        sc0 = ctx.resolver.scope(f)
+        if isinstance(la, ast.Name):
+            b = [node for kind, node in sc0.bind.get(la.id, []) if kind == "assign"]
+            if len(b) == 1 and len(sc0.bind.get(la.id, [])) == 1:
+                la = b[0]      # the label axes were bound to a local first
         inner = la
         if isinstance(inner, ast.Call) and norm(inner.func) == "tuple" and inner.args:
             inner = inner.args[0]
